@@ -12,9 +12,9 @@ ENTRY = {
         rule="cases: concurrent plans; non-trivial = at least one pair of operations on the same key (one of them a write) overlapped in time; distinct by plan",
         assumptions=["logical clock = shared atomic counter read before the call and after the return", "route handlers and annotations carry the version of the registration"],
         quick=[REPLAY,
-               R("plans-p4", "^TestPlans$", checks=25, race=True, gomaxprocs=4, env=_ENV, timeout=600),
-               R("plans-p16", "^TestPlans$", checks=25, race=True, gomaxprocs=16, env=_ENV, timeout=600),
-               R("plans-p2", "^TestPlans$", checks=15, race=True, gomaxprocs=2, env=_ENV, timeout=600)],
+               R("plans-p4", "^TestPlans$", checks=40, race=True, gomaxprocs=4, env=_ENV, timeout=600),
+               R("plans-p16", "^TestPlans$", checks=40, race=True, gomaxprocs=16, env=_ENV, timeout=600),
+               R("plans-p2", "^TestPlans$", checks=30, race=True, gomaxprocs=2, env=_ENV, timeout=600)],
         thorough=[REPLAY,
                   R("plans-p4", "^TestPlans$", checks=300, race=True, gomaxprocs=4, shards=4, env=_ENV, timeout=3000),
                   R("plans-p16", "^TestPlans$", checks=300, race=True, gomaxprocs=16, shards=3, env=_ENV, timeout=3000),
